@@ -35,9 +35,15 @@ Ltac upd_cases :=
   | H : ?t <> ?u, H' : context [upd _ ?t _ ?u] |- _ =>
       rewrite (upd_other _ t _ u (fun e => H (eq_sym e))) in H'
   | |- context [upd _ ?t _ ?u] =>
-      destruct (Nat.eq_dec u t); [subst|]
+      let e := fresh "e" in
+      destruct (Nat.eq_dec u t) as [e|e];
+      [ first [subst u | subst t | rewrite e in *]; rewrite ?upd_same in *
+      | rewrite ?(upd_other _ t _ u e) in * ]
   | H : context [upd _ ?t _ ?u] |- _ =>
-      destruct (Nat.eq_dec u t); [subst|]
+      let e := fresh "e" in
+      destruct (Nat.eq_dec u t) as [e|e];
+      [ first [subst u | subst t | rewrite e in *]; rewrite ?upd_same in *
+      | rewrite ?(upd_other _ t _ u e) in * ]
   end.
 
 (** ** Transition systems *)
